@@ -56,6 +56,7 @@ fn alphabet() -> Vec<Vec<u8>> {
 pub struct SeqFamily {
     alpha: Vec<Vec<u8>>,
     depth: usize,
+    label: &'static str,
 }
 
 fn check_routing(cmds: &[Vec<u8>], st: &mut Stats) -> Result<(), Violation> {
@@ -193,7 +194,7 @@ impl Family for SeqFamily {
         crate::engine::rot(idx)
     }
     fn name(&self) -> String {
-        format!("command-sequences-depth-{}", self.depth)
+        format!("{}-depth-{}", self.label, self.depth)
     }
     fn len(&self) -> u64 {
         (self.alpha.len() as u64).pow(self.depth as u32)
@@ -395,12 +396,37 @@ pub fn build(quick: bool) -> Check {
     let n = alpha.len();
     let mut families: Vec<Box<dyn Family>> = Vec::new();
     for d in 1..=(if quick { 4 } else { 5 }) {
-        families.push(Box::new(SeqFamily { alpha: alpha.clone(), depth: d }));
+        families.push(Box::new(SeqFamily { alpha: alpha.clone(), depth: d, label: "command-sequences" }));
     }
     if !quick {
         // one level deeper over a core of the alphabet (every third command)
         let core: Vec<Vec<u8>> = alpha.iter().enumerate().filter(|(i, _)| i % 2 == 0).map(|x| x.1.clone()).collect();
-        families.push(Box::new(SeqFamily { alpha: core, depth: 6 }));
+        families.push(Box::new(SeqFamily { alpha: core, depth: 6, label: "command-sequences" }));
+    }
+    // longer histories over the statement commands alone: two statements of different shape
+    // (one parameter / none) prepared, executed and closed in every order, with two commands that
+    // do not touch the registry in between
+    let one = exec_block(
+        &[ExecParam {
+            ty: 0xfd,
+            unsigned: false,
+            wire: Some(vec![2, b'h', b'i']),
+            long: false,
+        }],
+        true,
+    );
+    let stmts: Vec<Vec<u8>> = vec![
+        with_byte(COM_STMT_PREPARE, b"id=1 p=1"),
+        with_byte(COM_STMT_PREPARE, b"id=256 p=0"),
+        cmd_execute(1, 0, 1, &one),
+        cmd_execute(256, 0, 1, &[]),
+        cmd_close(1),
+        cmd_close(256),
+        vec![COM_PING],
+        with_byte(COM_QUERY, b"x"),
+    ];
+    for d in if quick { 5..=6 } else { 5..=7 } {
+        families.push(Box::new(SeqFamily { alpha: stmts.clone(), depth: d, label: "statement-command-sequences" }));
     }
     families.push(Box::new(UseFamily { spellings: use_spellings() }));
     families.push(Box::new(IdPairs));
@@ -408,7 +434,7 @@ pub fn build(quick: bool) -> Check {
     Check {
         id: "C02",
         level: "model_checking",
-        rule: format!("all command sequences of length <= {} over an alphabet of {} commands (near-miss prefixes, invalid UTF-8, statement ids at width boundaries, COM_INIT_DB names with edge whitespace/backticks/semicolons, quit mid-sequence), pipelined on one connection; every USE spelling of the stated grammar in 3 positions; every ordered pair of statement ids from a 24-value palette prepared, executed and closed in both orders; USE names ending/starting with every character U+00C0..U+00FF and 3-/4-byte characters; query / prepare / init-db / USE texts with a multi-byte character at every byte offset 0..12. Oracle: routing model (exact callback log, run_on result, strict decode of all replies). Non-trivial = sequence mixes at least two command kinds.", if quick {4} else {5}, n),
+        rule: format!("all command sequences of length <= {} over an alphabet of {} commands (near-miss prefixes, invalid UTF-8, statement ids at width boundaries, COM_INIT_DB names with edge whitespace/backticks/semicolons, quit mid-sequence) and of length <= 6 (thorough: 7) over 8 statement commands (two statements of different shape prepared / executed / closed in every order), pipelined on one connection; every USE spelling of the stated grammar in 3 positions; every ordered pair of statement ids from a 24-value palette prepared, executed and closed in both orders; USE names ending/starting with every character U+00C0..U+00FF and 3-/4-byte characters; query / prepare / init-db / USE texts with a multi-byte character at every byte offset 0..12. Oracle: routing model (exact callback log, run_on result, strict decode of all replies). Non-trivial = sequence mixes at least two command kinds.", if quick {4} else {5}, n),
         assumptions: vec![
             "for text that is not valid UTF-8 the property only says it is never handed to the shim: both 'connection ends with an error' and 'command skipped' are accepted".into(),
             "mixed-case spellings (Select @@x, Use db) are not in the alphabet because the property does not say how they route".into(),
